@@ -308,3 +308,105 @@ Example fixed2_validator_on_witnesses :
   validate_model_fx2 m_two_pairs_one_ep = [mkverr VEpDupBinding "" (-1) None] /\
   (forall f, In f (m_functions m_rich) -> no_discard_in_continuing (f_body f)).
 Proof. repeat split; try (vm_compute; reflexivity). intros f [<-|[]]. vm_compute. reflexivity. Qed.
+
+(* ================================================================================================ *)
+(* "valid WGSL program" made formal: the type checker Wgsl/Typecheck.wgsl_check over the ASTs of     *)
+(* lib/wgslgen.py (DESIGN 3.3; deviation D3 repaired), sound w.r.t. the reference semantics          *)
+(* Wgsl/Sem.v.  Tie: checks/c08.py runs the extracted checker on every program of the typed          *)
+(* generator (all must be accepted) before naga is asked to accept them; checks/c11.py gives naga    *)
+(* the ill-typed mutants that the checker rejects.                                                   *)
+(* ================================================================================================ *)
+Require Import Naga.IR.Values Naga.Wgsl.Sem Naga.Wgsl.Typecheck.
+Require Import Naga.Wgsl.TypecheckBase Naga.Wgsl.TypecheckMem Naga.Wgsl.TypecheckProofs Naga.Wgsl.TypecheckProgram
+               Naga.Wgsl.TypecheckRules.
+
+(* Type soundness, for ALL programs, inputs and fuel: an accepted program run on well-typed inputs ends
+   with well-typed module variables, runs out of fuel, or stops with a defined dynamic error (index out
+   of bounds, negative index, the unmodelled f32 %) -- never with a type / shape / scoping / arity failure. *)
+Theorem wgsl_typecheck_sound :
+  forall p gl args fuel,
+    wgsl_check p = None -> inputs_ok p gl args ->
+    match wgsl_run fuel p gl args with
+    | Done gs => Forall2 (vty (wp_structs p)) gs (map wg_ty (wp_globals p))
+    | OutOfFuel => True
+    | Fail m => benign m = true
+    end.
+Proof. exact wgsl_check_sound. Qed.
+Print Assumptions wgsl_typecheck_sound.
+
+(* Progress + preservation for expressions in any scope of an accepted program: a well-typed expression
+   evaluates to a value of its type in a well-typed (only grown) memory, or to a listed dynamic error. *)
+Theorem wgsl_expr_progress_preservation :
+  forall p genv cf g x t r sg e mem fuel,
+    wgsl_check p = None ->
+    tyx (wp_structs p) (prog_sigs p) (prog_delta p) cf g x = TOk (t, r) ->
+    wt p genv (prog_delta p) sg g e mem ->
+    match eval p genv fuel e mem x with
+    | Done (v, mem') => exists sg', ext sg sg' /\ mem_ok (wp_structs p) sg' mem' /\ bty (wp_structs p) sg' v t
+    | OutOfFuel => True
+    | Fail m => benign m = true
+    end.
+Proof. exact expr_progress_preservation. Qed.
+Print Assumptions wgsl_expr_progress_preservation.
+
+(* the checker decides its rules: every program with a break outside loop and switch (reached through
+   if / else / nested blocks, at any depth) is rejected *)
+Theorem wgsl_check_rejects_break_outside_loop :
+  forall p f, In f (wp_funcs p) \/ f = wp_entry p -> Exists bare_break (wf_body f) -> wgsl_check p <> None.
+Proof. exact check_rejects_break_outside_loop. Qed.
+Print Assumptions wgsl_check_rejects_break_outside_loop.
+
+(* ... every program with `let n = e; n = x;` in a function body is rejected; and in ANY scope, an
+   assignment / compound assignment / ++ / -- rooted at a value binding (let, parameter, const) is *)
+Theorem wgsl_check_rejects_assign_to_let :
+  forall p f pre n e x post,
+    In f (wp_funcs p) \/ f = wp_entry p ->
+    wf_body f = pre ++ WLet n e :: WAssign (WVar n) x :: post -> wgsl_check p <> None.
+Proof. exact check_rejects_assign_to_let. Qed.
+Print Assumptions wgsl_check_rejects_assign_to_let.
+
+Theorem wgsl_check_rejects_assign_to_value :
+  forall ss PHI D cf F g cur s l n t0 r,
+    (exists x, s = WAssign l x) \/ (exists op x, s = WCompound op l x) \/ s = WIncr l \/ s = WDecr l ->
+    root_var l = Some n -> tlookup_all D n g = Some (TVal t0) ->
+    tys ss PHI D cf F (g, cur) s = TOk r -> False.
+Proof. exact assign_to_value_rejected. Qed.
+Print Assumptions wgsl_check_rejects_assign_to_value.
+
+(* non-vacuity: a program with a helper, a pointer, a loop and a store is accepted, its inputs are
+   well typed; the same program with `let` assigned, or with a bare break, is rejected with the rule *)
+Definition tc_example_body (extra : list wstmt) : list wstmt :=
+  [ WVarDecl "x" (TyS WU32) (Some (WSwz (WVar "gid") [0%nat]));
+    WLet "q" (WAddr (WVar "x"));
+    WLet "k" (WCall "h" [WLit WI32 1%Z]);
+    WLoop [WIf (WBin ">=" (WDeref (WVar "q")) (WLit WU32 3%Z)) [WBreak] []] [WIncr (WVar "x")] None ]
+  ++ extra ++
+  [ WAssign (WIdx (WVar "out0") (WLit WI32 0%Z)) (WBin "+" (WVar "x") (WConv WU32 (WVar "k"))) ].
+
+Definition tc_example (extra : list wstmt) : wprog :=
+  mkwprog [] [] [mkwglobal "out0" "storage_rw" (TyArr None (TyS WU32)) None]
+          [mkwfunc "h" [("p", TyS WI32)] (Some (TyS WI32)) [WReturn (Some (WBin "+" (WVar "p") (WLit WI32 1%Z)))]]
+          (mkwfunc "main" [("gid", TyVec 3 WU32)] None (tc_example_body extra)).
+
+Example wgsl_check_accepts_example : wgsl_check (tc_example []) = None.
+Proof. vm_compute. reflexivity. Qed.
+
+Example wgsl_check_example_inputs :
+  inputs_ok (tc_example []) [Some (VArr [VU32 7%Z; VU32 9%Z])] [VVec [VU32 1%Z; VU32 0%Z; VU32 0%Z]].
+Proof.
+  split.
+  - constructor; [|constructor]. cbn. constructor; [repeat constructor|intros k Hk; discriminate].
+  - constructor; [|constructor]. constructor; [reflexivity|repeat constructor].
+Qed.
+
+Example wgsl_check_example_runs :
+  wgsl_run 200 (tc_example []) [Some (VArr [VU32 7%Z; VU32 9%Z])] [VVec [VU32 1%Z; VU32 0%Z; VU32 0%Z]]
+  = Done [VArr [VU32 5%Z; VU32 9%Z]].
+Proof. vm_compute. reflexivity. Qed.
+
+Example wgsl_check_rejects_examples :
+  wgsl_check (tc_example [WAssign (WVar "k") (WLit WI32 2%Z)]) = Some (RAssignToNonRef, "entry main") /\
+  wgsl_check (tc_example [WIf (WLit WBool 1%Z) [WBreak] []]) = Some (RBreakOutsideLoop, "entry main") /\
+  wgsl_check (tc_example [WLet "z" (WBin "+" (WVar "x") (WLit WI32 1%Z))]) = Some (ROperandTypes, "entry main") /\
+  wgsl_check (tc_example [WLet "z" (WBuiltin "min" [WVar "x"])]) = Some (RBuiltinArity, "entry main").
+Proof. repeat split; vm_compute; reflexivity. Qed.
